@@ -56,6 +56,9 @@ type Opts struct {
 
 func (opts *Opts) init() {
 	utils.SetDefaultNum(&opts.Size, 1024)
+	if opts.Size < 1024 { // The minimum size is 1024. (Smaller sizes would disable the per-shard limit.)
+		opts.Size = 1024
+	}
 	utils.SetDefaultNum(&opts.CleanerInterval, defaultCleanerInterval)
 }
 
